@@ -35,7 +35,7 @@ ASCII_S = ["abc", "Hello World", "a", "MiXeD cAsE", "x1y2", "  pad  ", "tab\tsep
            "one two  three", "ALLCAPS", "q", "", ""]      # the empty string is an argument like any other
 UNI_S = ["éàü", "αβγ", "Жук", "日本語", "éa", "naïve café", " nb ", "　wide　", "ÀÉÎ", "straße",
          "ǅ x", "ﬁn", "ı", "Ωmega"]
-NUM_S = ["0", "5", "-3", "2.5", "100", "255", "1024", "1000", "1000000", "0.001", "0.125", "-9223372036854775808", "-9223372036854775809", "9223372036854775807", "9223372036854775808", "-0.5", "1e3", "16", "8", "1",
+NUM_S = ["0", "5", "-3", "2.5", "100", "255", "1024", "1000", "1000000", "0.001", "0.125", "243", "125", "216", "-9223372036854775808", "-9223372036854775809", "9223372036854775807", "9223372036854775808", "-0.5", "1e3", "16", "8", "1",
          # arguments of the wrong kind: the documented outcome is an empty value (or a status-2 diagnostic), never a crash
          "abc", "1x", "5 ", "0x10"]
 DATE_S = ["2020-02-29", "2021-02-28", "2020-12-31", "2021-01-01", "2020-03-01 00:00:00", "2019-12-31 23:59:59",
@@ -101,7 +101,7 @@ def n_expr(draw, depth, force_call=False):
     if f == "power":
         return ["call", "power", [a, ["num", draw(st.sampled_from(["0", "1", "2", "3", "0.5", "-1"]))]]]
     if f == "log2":
-        return ["call", "log", [a, ["num", draw(st.sampled_from(["2", "10", "16"]))]]]
+        return ["call", "log", [a, ["num", draw(st.sampled_from(["2", "10", "16", "3", "5", "6", "100"]))]]]
     if f in ("least", "greatest"):
         return ["call", f, [a] + [draw(n_expr(0)) for _ in range(draw(st.sampled_from([1, 2, 3])))]]
     return ["call", f, [a]]
@@ -289,7 +289,7 @@ def ref(e, ent, tz="UTC"):
                 r = math.log(v) / math.log(b)
                 # the logarithm of an exact power of the base is that exponent, not a neighbour of it (the documentation's
                 # own example is `log(1000)`; `where log(size) = 3` must find a 1000-byte file)
-                if v > 0 and b in (2.0, 10.0, 16.0):
+                if v > 0 and b > 1 and b == int(b):
                     k = round(r)
                     if abs(k) <= 60 and b ** k == v:
                         return ("x", float(k))
